@@ -711,15 +711,27 @@ Section Kinds.
      (accepted before d6dfc5c: sub_unify returns early when both sides are one class, so the constraint that
      was just added was never looked at) *)
   Lemma read_var_eval v rsp kd f ctx s t :
+    existsb (N.eqb v) (tnames s) = false ->
     PositiveMap.find (N.succ_pos v) kinds = Some kd -> (inside_pure ctx && negb (immutable kd)) = false ->
     head s (N.succ_pos v) = Some t -> rigid t = true ->
     r_expr (afix (S f)) (ERead v rsp) ctx s = Ok ((None, N.succ_pos v), s).
   Proof.
-    intros Hk Hp Hh Rt. cbn [Tc.afix astep r_expr]. unfold expr_body. cbv beta iota.
+    intros Tn Hk Hp Hh Rt. cbn [Tc.afix astep r_expr]. unfold expr_body. cbv beta iota.
     unfold var_kind, var_ty. rewrite Hk.
     rewrite (bind_ok _ _ s (None, N.succ_pos v) s).
     - cbv beta iota zeta. rewrite (bind_ok _ _ _ _ _ (find_type_ok _ _ _ Hh)). destruct t; try discriminate; reflexivity.
-    - rewrite (bind_ok (ret kd) _ s kd s eq_refl). rewrite Hp. reflexivity.
+    - rewrite (bind_ok (is_type_name v) _ s false s) by (unfold is_type_name; rewrite Tn; reflexivity).
+      rewrite (bind_ok (ret kd) _ s kd s eq_refl). rewrite Hp. reflexivity.
+  Qed.
+
+  (* the name of a blob or an enum is not a value (since 9c09349) *)
+  Lemma read_type_name_notok v rsp f ctx s :
+    existsb (N.eqb v) (tnames s) = true -> notok (r_expr (afix f) (ERead v rsp) ctx s).
+  Proof.
+    intros Tn. destruct f as [|f]; [apply notok_fuel|]. cbn [Tc.afix astep r_expr]. unfold expr_body.
+    apply bind_notok_l. cbv beta iota.
+    rewrite (bind_ok (is_type_name v) _ s true s) by (unfold is_type_name; rewrite Tn; reflexivity).
+    apply notok_fail.
   Qed.
 
   Lemma rej_compound_self name v dk tsp lit dsp op k r1 r2 asp bsp tl f ctx s :
@@ -763,8 +775,9 @@ Section Kinds.
     destruct (inside_pure ctx) eqn:Ip; [apply notok_fail|].
     destruct f as [|f]; [apply bind_notok_l, notok_fuel|].
     assert (Hp' : (inside_pure ctx && negb (immutable kd)) = false) by (rewrite Ip; reflexivity).
-    rewrite (bind_ok _ _ _ _ _ (read_var_eval v r2 kd f ctx s1 tl Hk Hp' Hx Rl)). cbv beta iota zeta.
-    rewrite (bind_ok _ _ _ _ _ (read_var_eval v r1 kd f ctx s1 tl Hk Hp' Hx Rl)). cbv beta iota zeta.
+    destruct (existsb (N.eqb v) (tnames s1)) eqn:Tn; [apply bind_notok_l; now apply read_type_name_notok|].
+    rewrite (bind_ok _ _ _ _ _ (read_var_eval v r2 kd f ctx s1 tl Tn Hk Hp' Hx Rl)). cbv beta iota zeta.
+    rewrite (bind_ok _ _ _ _ _ (read_var_eval v r1 kd f ctx s1 tl Tn Hk Hp' Hx Rl)). cbv beta iota zeta.
     set (x := N.succ_pos v) in *.
     assert (Core : forall con, (forall g' s', wf s' -> head s' x = Some tl -> notok (check_one (gfix g') asp x (con x) s')) ->
               notok (((add_constraint x (con x);;; add_constraint x (con x));;;
